@@ -89,6 +89,24 @@ class FakeProc:
     def poll(self):
         return self.returncode
 
+    # a refactoring may use the process as a context manager or signal it
+    def __enter__(self):
+        return self
+
+    def __exit__(self, *exc):
+        if self.returncode is None:
+            self.returncode = self._rc
+        return False
+
+    def kill(self):
+        self.returncode = -9
+
+    def terminate(self):
+        self.returncode = -15
+
+    pid = 4242
+    args = ()
+
 
 class FakeVCS:
     PIPE = subprocess.PIPE
@@ -99,7 +117,7 @@ class FakeVCS:
     TimeoutExpired = subprocess.TimeoutExpired
 
     def __init__(self, kind="git", tags_all=(), tags_merged=None, status=(), remote="upstream", hooks=None, fail=None,
-                 files_probe=None):
+                 files_probe=None, tags_after_fetch=None):
         """remote: 'upstream' (current branch tracks origin/main), 'url' (only remote.origin.url), None.
         fail: None | (name, nth) - the nth (0-based) command with that classified name answers with failure.
         hooks: {abs or rel path: (rc, stdout bytes, stderr bytes)}; files_probe(): snapshot of the project at an effect."""
@@ -111,6 +129,7 @@ class FakeVCS:
         self.hooks = hooks or {}
         self.fail = fail
         self.files_probe = files_probe
+        self.tags_after_fetch = tags_after_fetch  # tag list (all branches) once a fetch has succeeded
         self.log = []  # dicts: type cmd|hook
         self._seen = {}
 
@@ -140,6 +159,9 @@ class FakeVCS:
             entry["ok"] = False
             return 1, b"", ("injected failure of " + name).encode()
         out = b""
+        if name == "fetch" and self.tags_after_fetch is not None:
+            self.tags_all = list(self.tags_after_fetch)
+            self.tags_merged = list(self.tags_after_fetch)
         if name == "ls_tags":
             lines = self.tags_all
             if self.kind == "hg":
